@@ -66,9 +66,9 @@ CONSTANTS
   Depth = %d
   Emit = %s
   Profile = "%s"
-VIEW View
+VIEW %s
 INVARIANTS InvAcyclic InvAliases InvFresh InvRefused
-""" % (maxref, "TRUE" if append_ok else "FALSE", "TRUE" if set_grows else "FALSE", depth, "TRUE" if emit else "FALSE", profile)
+""" % (maxref, "TRUE" if append_ok else "FALSE", "TRUE" if set_grows else "FALSE", depth, "TRUE" if emit else "FALSE", profile, "View" if emit else "ViewStep")
     p = os.path.join(vlib.SPEC, "gen_" + name + ".cfg")
     with open(p, "w") as f:
         f.write(cfg)
